@@ -352,6 +352,13 @@ func profileFor(prop string, r *sim.Rand, i int, quick bool) sim.Profile {
 		p.SubSecond = i%8 == 2 || i%8 == 6
 	}
 	switch prop {
+	case "C01", "C11":
+		if i%4 == 1 {
+			p.BlockMaxGas = []int64{150000, 400000, 60000}[i/4%3] // a block gas limit that the busier blocks reach
+		}
+		p.Trace = prop == "C11" && i%4 == 2
+	}
+	switch prop {
 	case "C01", "C02", "C04", "C05", "C06", "C07", "C09":
 		// genesis states as exported from a running chain: validators in jail, validators that are unstaking
 		p.RichGenesis = i%8 == 4
@@ -364,11 +371,13 @@ func profileFor(prop string, r *sim.Rand, i int, quick bool) sim.Profile {
 			p.RestartPct = 6
 		}
 		p.EdgeAddresses = i%4 == 2
-		if (prop == "C07" || prop == "C06") && i%8 == 2 && p.CustomPos {
+		p.SecpValidators = (prop == "C05" && i%4 == 3) || (prop == "C09" && i%8 == 7)
+		if (prop == "C07" || prop == "C06" || prop == "C05") && i%8 == 2 && p.CustomPos {
 			p.Pos.UnstakingTime = time.Duration([]int64{0, 1}[i/8%2]) * time.Second // no (or almost no) unstaking period
 		}
 		if (prop == "C07" || prop == "C09") && i%8 == 6 {
 			p.FatalEvPct = 25 // some evidence the application cannot handle (unknown key, too old, tombstoned, unstaked offender)
+			p.OldEvPct = 30   // ... among it evidence just beyond the maximum age (by seconds, or by a nanosecond)
 			p.EvidencePct = 14
 		}
 		p.UnstakingTimeChanges = prop == "C06" && i%8 == 0
